@@ -515,6 +515,22 @@ impl Kernel {
         }
     }
 
+    /// Cheap oracle-visible event: the numbers are hashed; text is built only when tracing.
+    pub fn event_nums(&self, tag: &'static str, a: u64, b: u64, c: u64) {
+        let mut guard = self.lock();
+        let inner = &mut *guard;
+        let mut h = inner.hash;
+        for b in tag.as_bytes() {
+            h ^= *b as u64;
+            h = h.wrapping_mul(0x0000_0100_0000_01B3);
+        }
+        inner.hash = fnv_mix(fnv_mix(fnv_mix(h, a), b), c);
+        if let Some(t) = inner.trace.as_mut() {
+            let line = format!("[{:>6} t={}ns T{}] {tag} {a} {b} {c}", inner.steps, inner.now, inner.current);
+            t.push(line);
+        }
+    }
+
     /// Cooperative fault point: each named site is enabled for about half of the
     /// runs (decided by a draw at first use) and, when enabled, fires with
     /// probability `num/den`. A zero draw never enables and never fires.
@@ -855,6 +871,12 @@ pub fn crash_disarm() -> bool {
         return inner.threads[me].crash_in.take().is_some();
     }
     false
+}
+
+pub fn event_nums(tag: &'static str, a: u64, b: u64, c: u64) {
+    if let Some((k, _)) = current() {
+        k.event_nums(tag, a, b, c);
+    }
 }
 
 pub fn now_ns() -> u64 {
